@@ -160,3 +160,11 @@ Theorem C10_completions_are_source : forall s b,
   end.
 Proof. exact StateGenEq.complete_eq. Qed.
 Print Assumptions C10_completions_are_source.
+
+(* the whole machine: Event.trigger over the table generated from state.dot
+   with every callback bound to the method body translated from state.py is
+   the [trigger_] every theorem above speaks about (any state, any trigger,
+   nested triggers included) *)
+Theorem C10_machine_is_source : forall s t, StateGen.gen_trigger s t = trigger_ s t.
+Proof. exact StateGenEq.gen_trigger_eq. Qed.
+Print Assumptions C10_machine_is_source.
